@@ -175,16 +175,17 @@ class LoggingHeap(core.Heap):
     def set_a1(self, field, ref, n, valf):
         raise Unsupported("array field rebinding inside a summarised loop")
 
-    def write_a2_where(self, field, ref, guard_ij, valf, cond=True):
+    def write_a2_where(self, field, ref, guard_ij, valf, cond=True, col=None, row=None):
         fm = self._a2(field)
         ii = fresh("i", z3.IntSort())
         cc = fresh("c", z3.IntSort())
-        d = delta_of(valf(ii, cc), fm.read(ref, ii, cc))
+        # the store touches one column: compare with the current content of that column
+        d = delta_of(valf(ii, cc), fm.read(ref, row if row is not None else ii, col if col is not None else cc))
         inc = None
         if not self._decl_mentioned(d, ("a2", field)):
             inc = lambda i, c, d=d, ii=ii, cc=cc: z3.substitute(d, (ii, to_z3num(i)), (cc, to_z3num(c)))
         self.log.append(dict(kind="a2", field=field, ref=ref, guard=guard_ij, val=valf, inc=inc))
-        core.Heap.write_a2_where(self, field, ref, guard_ij, valf, cond)
+        core.Heap.write_a2_where(self, field, ref, guard_ij, valf, cond, col, row)
 
 
 def delta_of(t, base):
